@@ -440,7 +440,10 @@ def js_literal(v):
     raise TypeError(v)
 
 
-def js_string_literal(s):
+def js_string_literal(s, raw_astral=False):
+    """JavaScript string literal for s.  Non-BMP characters are written as surrogate-pair
+    escapes by default; with raw_astral they are written raw (the engine keeps strings as
+    code points, so only the raw spelling denotes the same Python string there)."""
     out = ['"']
     for ch in s:
         o = ord(ch)
@@ -456,6 +459,8 @@ def js_string_literal(s):
             out.append("\\t")
         elif o < 0x20 or o == 0x7F or o in (0x2028, 0x2029) or 0xD800 <= o <= 0xDFFF or o == 0xFEFF:
             out.append("\\u%04x" % o)
+        elif o > 0xFFFF and raw_astral:
+            out.append(ch)
         elif o > 0xFFFF:
             o -= 0x10000
             out.append("\\u%04x\\u%04x" % (0xD800 + (o >> 10), 0xDC00 + (o & 0x3FF)))
